@@ -64,6 +64,9 @@ def _case(draw):
         "pre": jdcheck.pre_grads(rng, prog),
         "shuffle_seed": int(rng.integers(0, 1000)),
         # `tensors` is a Sequence[Tensor] | Tensor, `inputs` an Iterable[Tensor]
+        # a third of the cases pass the aggregator itself (no recording wrapper), so that code paths keyed on the
+        # aggregator's type are exercised; the expectation is then A(oracle Jacobian), sliced per input
+        "unwrapped": bool(rng.integers(0, 3) == 0),
         "containers": [["list", "tuple", "tensor"][int(rng.integers(0, 3))], ["list", "tuple", "generator", "set", "dict-keys"][int(rng.integers(0, 5))]],
     }
 
@@ -95,10 +98,12 @@ def _features(prog, inputs, shapes, dual):
     return f
 
 
-def _call(prog, inputs, spec, chunk, pre, containers=("list", "list")):
+def _call(prog, inputs, spec, chunk, pre, containers=("list", "list"), unwrapped=False):
     g = P.TorchGraph(prog)
     before = jdcheck.set_pre_grads(g.leaves, pre)
     rec = jdcheck.make_recording(spec, prog["dtype"])
+    if unwrapped:
+        rec = rec.inner
     tensors = [g.get(r) for r in prog["outputs"]]
     if containers[0] == "tuple":
         tensors = tuple(tensors)
@@ -112,6 +117,39 @@ def _call(prog, inputs, spec, chunk, pre, containers=("list", "list")):
                         else dict.fromkeys(ins).keys() if kind == "dict-keys" else ins)
     backward(tensors, rec, parallel_chunk_size=chunk, **kw)
     return g, before, rec
+
+
+def _check_unwrapped(out, case, prog, spec, dtype, dual, g, before, agg, expected_inputs, m, feats):
+    """No recording wrapper: the increments must equal A(oracle Jacobian) sliced per input (A is column-equivariant,
+    so the slices do not depend on the unknown internal ordering)."""
+    out.cls("unwrapped-aggregator")
+    blocks = jdcheck.oracle_rows(dual, prog, prog["outputs"], expected_inputs)
+    if not expected_inputs:
+        return out
+    Jfull = np.concatenate([blocks[i] for i in expected_inputs], axis=1)
+    Jt = torch.tensor(Jfull, dtype=getattr(torch, dtype))
+    if rel.domain_exclusion(spec, dtype, Jfull) is not None:
+        out.excluded = "aggregator-domain"
+        return out
+    x = agg(Jt).double().numpy()
+    wn = rel.weights_norm(agg, Jt) if spec["name"] != "TrimmedMean" else 1.0
+    tol = rel.base_tolerance(spec, dtype, Jfull, wn, float(np.linalg.norm(x))) * 4 + jdcheck.DERIV_TOL[dtype] * max(1.0, dual.max_abs) * max(1.0, wn) * m
+    off = 0
+    for i in expected_inputs:
+        k = blocks[i].shape[1]
+        leaf = g.leaves[i]
+        if out.check(leaf.grad is not None, "grad-missing", f"input {i}"):
+            got = (leaf.grad - (before[i] if before[i] is not None else 0)).double().numpy().reshape(-1)
+            out.within(float(np.abs(got - x[off : off + k]).max(initial=0.0)), tol, "backward:differs-from-aggregated-oracle-jacobian",
+                       f"input {i}: increment {got.tolist()} vs A(J)[{off}:{off + k}] = {x[off:off + k].tolist()} ({spec})")
+        off += k
+    for i, leaf in enumerate(g.leaves):
+        if i not in expected_inputs:
+            old = before[i]
+            same = (leaf.grad is None and old is None) or (leaf.grad is not None and old is not None and torch.equal(leaf.grad, old))
+            out.check(same, "non-input-grad-touched", f"leaf {i}")
+    out.nontrivial = m >= 2 and len(expected_inputs) >= 2 and bool(feats)
+    return out
 
 
 def run_case(case) -> Outcome:
@@ -132,11 +170,14 @@ def run_case(case) -> Outcome:
         out.cls("pre-existing-grad")
     feats = _features(prog, expected_inputs, shapes, dual)
     out.cls(*feats)
+    unwrapped = bool(case.get("unwrapped")) and spec["name"] in ("Mean", "Sum", "Constant", "UPGrad", "DualProj", "TrimmedMean")
     try:
-        g, before, rec = _call(prog, inputs, spec, case["chunk"], case["pre"], case.get("containers", ("list", "list")))
+        g, before, rec = _call(prog, inputs, spec, case["chunk"], case["pre"], case.get("containers", ("list", "list")), unwrapped)
     except Exception as e:  # noqa: BLE001
         out.check(False, f"backward-raises:{type(e).__name__}", str(e)[:300])
         return out
+    if unwrapped:
+        return _check_unwrapped(out, case, prog, spec, dtype, dual, g, before, rec, expected_inputs, m, feats)
     if not out.check(len(rec.calls) == 1, "aggregator-call-count", f"{len(rec.calls)} calls"):
         return out
     blocks = jdcheck.oracle_rows(dual, prog, prog["outputs"], expected_inputs)
